@@ -304,18 +304,99 @@ def module_load(chk):
 
 
 def safetensors(chk):
+    from ..core import loop_body_paths
     repo = chk.repo
     mi, save = repo.func("safe_save")
     sdn, fname = positional_params(save)[:2]
-    src = U(save)
-    ok = ("if type(value) == torch.Tensor:" in src or "if type(value) is torch.Tensor:" in src) and "tensors[name] = value" in src and "metadata[name] = value" in src and f"for name, value in {sdn}.items():" in src
-    call = [n for n in ast.walk(save) if isinstance(n, ast.Call) and U(n.func) == "save_file"]
-    ok_call = len(call) == 1 and ([U(a) for a in call[0].args] == ["tensors", fname, "metadata"] or ([U(a) for a in call[0].args] == ["tensors", fname] and {k.arg: U(k.value) for k in call[0].keywords} == {"metadata": "metadata"}))
-    chk.require("C10.R5", f"{mi.rel}:{save.lineno}", ok and ok_call, "safe_save: plain tensors -> tensors, everything else -> metadata, both passed to save_file(tensors, filename, metadata)", "safe_save", "safe_save split", "any quantized state_dict: strings are dropped or sent to the tensor section")
+    site = f"{mi.rel}:{save.lineno}"
+    # which dict goes where: from the save_file(...) call (after inlining of private helpers)
+    tens = meta = None
+    for p in paths_of(save):
+        for ef in p.effects:
+            if ef[0] == "expr" and isinstance(ef[1], ast.Call) and U(ef[1].func) in ("save_file", "safetensors.torch.save_file"):
+                c = ef[1]
+                a = [x for x in c.args]
+                kw = {k.arg: k.value for k in c.keywords}
+                if len(a) >= 2 and U(a[1]) == fname:
+                    tens = a[0]
+                    meta = a[2] if len(a) > 2 else kw.get("metadata")
+    if tens is None or meta is None:
+        chk.unknown("C10.R5", site, "safe_save: save_file(tensors, filename, metadata) call not found")
+    else:
+        # where do the two dicts get their entries?  (a) a loop storing into them (b) comprehensions
+        verdict = None
+        loops = [n for n in ast.walk(save) if isinstance(n, ast.For) and sdn in U(n.iter)]
+        helper_loops = []
+        if not loops:
+            for n in ast.walk(save):
+                if isinstance(n, ast.Call) and isinstance(n.func, ast.Name):
+                    r = repo.resolve(mi, n.func.id)
+                    if r is not None and isinstance(r[1], ast.FunctionDef):
+                        for lp in ast.walk(r[1]):
+                            if isinstance(lp, ast.For):
+                                helper_loops.append((r[1], lp))
+        cands = [(save, lp) for lp in loops] + helper_loops
+        for outer, lp in cands:
+            yes = no = None
+            for bp in loop_body_paths(outer, lp):
+                fb = path_facts(bp)
+                leaf = None
+                for k_, v_ in fb.items():
+                    if k_.startswith("type(") and k_.endswith(") == torch.Tensor"):
+                        leaf = v_
+                    elif k_.startswith("isinstance(") and "Tensor" in k_:
+                        leaf = ("isinstance", v_)
+                    elif k_.startswith("isinstance(") and ", str)" in k_:
+                        leaf = ("isstr", v_)
+                stores = [U(ef[1]) for ef in bp.effects if ef[0] == "substore"]
+                if leaf is True:
+                    yes = stores
+                elif leaf is False:
+                    no = stores
+                elif isinstance(leaf, tuple):
+                    verdict = ("bad", f"the split tests `{leaf[0]}` instead of `type(value) == torch.Tensor`")
+            if yes is not None and no is not None and verdict is None:
+                verdict = ("ok", "") if (len(yes) == 1 and len(no) == 1 and yes != no) else ("bad", f"plain tensors stored into {yes}, other values into {no}")
+        if verdict is None:
+            # comprehension form: {k: v for k, v in sd.items() if type(v) == torch.Tensor}
+            comps = [n for n in ast.walk(save) if isinstance(n, ast.DictComp)]
+            tests = [U(c) for n in comps for g in n.generators for c in g.ifs]
+            if any(t.startswith("type(") and t.endswith("== torch.Tensor") for t in tests) and any(t.startswith("type(") and t.endswith("!= torch.Tensor") for t in tests):
+                verdict = ("ok", "")
+            elif any("isinstance(" in t for t in tests):
+                verdict = ("bad", "the split uses isinstance")
+        if verdict is None:
+            chk.unknown("C10.R5", site, "safe_save: how the state_dict is split was not recognised")
+        else:
+            chk.require("C10.R5", site, verdict[0] == "ok", f"safe_save: plain tensors (type(value) == torch.Tensor) -> tensors, everything else -> metadata, both passed to save_file {verdict[1]}", "safe_save", "safe_save split", "any quantized state_dict: strings are dropped or sent to the tensor section, or a tensor subclass is sent to safetensors")
     mi2, load = repo.func("safe_load")
-    src = U(load)
-    ok = "state_dict = f.metadata()" in src and "for k in f.keys():" in src and "state_dict[k] = f.get_tensor(k)" in src and "return state_dict" in src
-    chk.require("C10.R5", f"{mi2.rel}:{load.lineno}", ok, "safe_load: starts from the metadata strings and adds every tensor", "safe_load", "safe_load merge", "any file: qtype/axis/size entries or tensors are missing after loading")
+    site2 = f"{mi2.rel}:{load.lineno}"
+    ok_meta = ok_tensors = ok_ret = False
+    base_name = None
+    for n in ast.walk(load):
+        if isinstance(n, ast.Assign) and isinstance(n.value, ast.Call) and isinstance(n.value.func, ast.Attribute) and n.value.func.attr == "metadata" and isinstance(n.targets[0], ast.Name):
+            base_name = n.targets[0].id
+            ok_meta = True
+        if isinstance(n, ast.Assign) and isinstance(n.value, ast.Call) and U(n.value.func) == "dict" and n.value.args and "metadata()" in U(n.value.args[0]) and isinstance(n.targets[0], ast.Name):
+            base_name = n.targets[0].id
+            ok_meta = True
+    for n in ast.walk(load):
+        from ..core import strip_identity
+        it_ = strip_identity(n.iter) if isinstance(n, ast.For) else None
+        if isinstance(n, ast.For) and isinstance(it_, ast.Call) and isinstance(it_.func, ast.Attribute) and it_.func.attr == "keys" and isinstance(n.target, ast.Name):
+            k = n.target.id
+            for st in n.body:
+                if isinstance(st, ast.Assign) and isinstance(st.targets[0], ast.Subscript) and U(st.targets[0].value) == base_name and U(st.targets[0].slice) == k and isinstance(st.value, ast.Call) and isinstance(st.value.func, ast.Attribute) and st.value.func.attr == "get_tensor" and [U(a) for a in st.value.args] == [k]:
+                    ok_tensors = True
+        if isinstance(n, ast.Return) and n.value is not None and U(n.value) == base_name:
+            ok_ret = True
+    reads_meta = any(isinstance(n, ast.Call) and isinstance(n.func, ast.Attribute) and n.func.attr == "metadata" for n in ast.walk(load))
+    if not reads_meta:
+        chk.bad("C10.R5", site2, "safe_load", "safe_load merge", "safe_load never reads the file's metadata(): the string entries (qtype names, axis, size...) are not restored", "any file saved with safe_save: qtype/axis/size entries are missing after loading")
+    elif base_name is None:
+        chk.unknown("C10.R5", site2, "safe_load: metadata() assignment not found")
+    else:
+        chk.require("C10.R5", site2, ok_meta and ok_tensors and ok_ret, "safe_load: starts from the metadata strings, adds every tensor of f.keys() and returns the merged dict", "safe_load", "safe_load merge", "any file: qtype/axis/size entries or tensors are missing after loading")
 
 
 def self_reads(ci, fn, repo, depth=3, seen=None):
